@@ -2,6 +2,6 @@
 # usage: regress_all.sh <outdir> [parallel] — every saved seeded change against the check of the property it breaks (VERIF_SEED / TIER from the environment),
 # each in a private worktree; one result file per change, summary at the end
 out=$1; par=${2:-5}; mkdir -p $out
-ls -d /verif/seeded/C*_* | xargs -P $par -I{} bash -c 'd={}; label=$(basename $d); prop=$(python3 -c "import json,sys; m=json.load(open(\"$d/meta.json\")); print(m.get(\"check_property\") or m[\"breaks_property\"])"); /verif/tools/try_seed_wt.sh $d/patch.diff $prop > '$out'/$label.txt 2>&1'
+ls -d ${VERIF_ROOT:-/verif}/seeded/C*_* | xargs -P $par -I{} bash -c 'd={}; label=$(basename $d); prop=$(python3 -c "import json,sys; m=json.load(open(\"$d/meta.json\")); print(m.get(\"check_property\") or m[\"breaks_property\"])"); ${VERIF_ROOT:-/verif}/tools/try_seed_wt.sh $d/patch.diff $prop > '$out'/$label.txt 2>&1'
 for f in $out/C*.txt; do l=$(basename $f .txt); if grep -q "VIOLATION" $f; then if grep VIOLATION $f | grep -qv no-failing-input-found; then s=failing-input; else s=no-failing-input-found; fi; else s="MISSED $(grep -h "^==" $f | head -1)"; fi; echo "$l $s"; done > $out/summary.txt
 grep -c failing-input $out/summary.txt; grep -v " failing-input" $out/summary.txt
